@@ -227,7 +227,7 @@ class Rank:
 
                 return Fiber._maxComponents([f.estimateShape(all_ranks=False) for f in self.fibers])
 
-            return self._attrs.getShape()
+            return self._currentEstimate(self._attrs.getShape())
 
         #
         # Get shape of all ranks
@@ -239,7 +239,7 @@ class Rank:
             return None
 
         if self._attrs.getShape() is not None:
-            shape = [self._attrs.getShape()]
+            shape = [self._currentEstimate(self._attrs.getShape())]
         elif len(self.fibers) == 0:
             shape = [0]
         else:
@@ -581,6 +581,21 @@ class Rank:
         string += ", ".join([x.__repr__() for x in self.fibers])
         string += "]"
         return string
+
+    def _currentEstimate(self, shape):
+        """A remembered shape that is only an estimate must keep up with
+        the fibers of the rank, which may have grown since it was made"""
+
+        if not self._attrs.getEstimatedShape() or len(self.fibers) == 0:
+            return shape
+
+        estimates = [f.estimateShape(all_ranks=False) for f in self.fibers]
+        estimates = [e for e in estimates if e]
+
+        if shape:
+            estimates.append(shape)
+
+        return Fiber._maxComponents(estimates) if estimates else shape
 
 #
 # Copy operation
